@@ -14,12 +14,11 @@ SHAPE = [("interval", "I", 1), ("point", "P", 1), ("interval", "E", 0)]
 
 def run(rep, tier):
     idx = common.ctx()
-    rep.rule("L-lifting", "abstract interpretation of Textgrid.crop / eraseRegion / insertSpace / editTimestamps on a generic textgrid (an interval tier, a point tier and an empty tier sharing the span): same names in the same order, each tier equal to the same tier-level operation, shared span and validate() True where the property says so")
+    rep.rule("L-lifting", "abstract interpretation of Textgrid.crop / eraseRegion / insertSpace / editTimestamps on a generic textgrid (an interval tier, a point tier and an empty tier sharing the span): same names in the same order, each tier equal to the same tier-level operation, shared span and validate() True where the property says so; in lax mode (with and without rebasing) the textgrid span is the hull of the window and of the cropped tiers' spans (widened just enough)")
     rep.rule("S-addTier", "addTier on a generic textgrid: duplicate name rejected with nothing written, position = list.insert(index) for every index from -2 to len+2, span only widens (table over the weak orders of the two spans), reporting per mode")
     rep.rule("S-rename-replace", "renameTier / replaceTier keep the index and every other tier (interpreted on a generic 3-tier textgrid)")
     rep.rule("M-mergeTiers", "mergeTiers fuses the selected interval tiers and point tiers via union folded in selection order, other tiers preserved")
     rep.rule("B1-atomic", "no may-raise site after a receiver write in addTier/removeTier/renameTier/replaceTier (shared with C13)")
-    rep.not_decided.append("Textgrid.crop in lax mode with rebasing: whether an overhanging interval is longer than the window is not an order-type fact (the tier-level table of C06 covers that mode)")
     rep.not_decided.append("equivalence with the ordered-list model over operation sequences to depth 5 (only the per-operation contracts are decided)")
 
     shapes = [SHAPE] if tier == "thorough" else [[("interval", "I", 1), ("point", "E", 0)], [("interval", "E", 0), ("point", "P", 1)]]
@@ -43,11 +42,12 @@ def lifting(rep, shape, only=None, own=False):
         return {"a": at.var("a"), "b": at.var("b")}
     if only in (None, "crop"):
       lifted_table(rep, "L-lifting-crop" + sfx, "crop", shape, win,
-                 [(m, r) for m in ("strict", "lax", "truncated") for r in (True, False) if (m, r) != ("lax", True)],
+                 [(m, r) for m in ("strict", "lax", "truncated") for r in (True, False)],
                  lambda I, tg, sy, mode: I.call_value(I.getattr(tg, "crop"), [sy["a"], sy["b"], mode[0], mode[1]], {}),
                  lambda I, t, sy, mode: I.call_value(I.getattr(t, "crop"), [sy["a"], sy["b"], mode[0], mode[1]], {}),
                  "crop window (a,b)", shared_span=lambda mode: mode[0] != "lax", check_valid=(lambda mode: mode[0] != "lax") if not own else None, own_spans=own,
-                 tg_span=(lambda I, sy, mode, m, M: None if mode[0] == "lax" else ((Lin.num(0), sy["b"] - sy["a"]) if mode[1] else (sy["a"], sy["b"]))) if own else None)
+                 tg_span=(lambda I, sy, mode, m, M: None if mode[0] == "lax" else ((Lin.num(0), sy["b"] - sy["a"]) if mode[1] else (sy["a"], sy["b"]))) if own else None,
+                 hull_span=lambda I, sy, mode: (((Lin.num(0), sy["b"] - sy["a"]) if mode[1] else (sy["a"], sy["b"])) if mode[0] == "lax" else None))
 
     # --- eraseRegion (region inside the span)
     def reg(at):
@@ -96,7 +96,7 @@ def lifting(rep, shape, only=None, own=False):
         lifted_table(rep, "L-lifting-editTimestamps", "editTimestamps", shape, off, ["silence", "warning", "error"],
                      lambda I, tg, sy, mode: I.call_value(I.getattr(tg, "editTimestamps"), [sy["off"], mode], {}),
                      lambda I, t, sy, mode: I.call_value(I.getattr(t, "editTimestamps"), [sy["off"], mode], {}),
-                     "offset")
+                     "offset", check_prints=True)
 
 
 
